@@ -43,18 +43,18 @@ __attribute__((noinline)) static DW wmul(W a, W k) { return (DW)((DW)a * (DW)k);
 
 // ---- assume/guarantee stand-in for the double-word helper DoubleSize<W,bits(W)> (only with -DDS_CONTRACT) ----------------
 // The real helpers are checked against native double-width arithmetic in C19_dsize.cpp; here BigInt is checked OVER their contract.
-// Why: a SAT solver cannot even show two separate copies of one 8x8 multiplier equal in reasonable time, so the oracle and the code
-// under test must share the product term.
-// Multiply: the contract itself - the exact double-width product.  For the operand pairs announced by the harness (g_ma/g_mk, in
-//           call order) it returns the product the harness has already computed (g_mp = wmul(a,k), the same term the oracle sums);
-//           for any other operands it flags g_pre_ok and still returns the exact product.
-// Divide  : checks the callee's precondition (divisor != 0, high < divisor, for 64-bit words shift = 63 - msb(divisor)), records
-//           the call, and returns an ARBITRARY (quotient, remainder) constrained only by consequences of the contract
-//           "high:low == q*divisor + r and r < divisor", namely  r < divisor  and  (high != 0 => q != 0).
+// Why: a SAT solver needs minutes to show two separate copies of one 8x8 multiplier equal, and cannot derive "a*k != 0" from
+// "a != 0, k != 0" at 64 bits, so products are kept abstract here and exact in C19_dsize.cpp.
+// Multiply: returns an ARBITRARY double-width value p constrained only by consequences of the contract "p == a*k":
+//           p == 0 <=> (a == 0 or k == 0);  p <= (2^w-1)^2.  The harness draws one such p per word before the call, announces
+//           the operand pair of every call in call order (g_ma/g_mk -> g_mp); the stand-in ASSERTS that the actual operands are
+//           the announced ones (assertion 91) and returns that p, which is also the term the oracle sums.
+// Divide  : ASSERTS the callee's precondition (assertion 90: divisor != 0, high < divisor, for 64-bit words shift = 63 -
+//           msb(divisor)), records the call, and returns an ARBITRARY (quotient, remainder) constrained only by consequences of
+//           the contract "high:low == q*divisor + r and r < divisor", namely  r < divisor  and  (high != 0 => q != 0).
 #ifdef DS_CONTRACT
 #define DSMAX 8
 static unsigned g_n;                 // calls so far
-static bool     g_pre_ok = true;
 static W        g_ma[DSMAX], g_mk[DSMAX];
 static DW       g_mp[DSMAX];
 static W        g_hi[DSMAX], g_lo[DSMAX], g_q[DSMAX], g_r[DSMAX];
@@ -63,24 +63,27 @@ template <>
 struct DoubleSize<W, WBITS> {
     static void Divide(W &high, W &low, const W divisor, const SizeT32 shift) noexcept {
         const unsigned c = g_n;
-        if (c >= DSMAX || divisor == 0) { g_pre_ok = false; return; }
-        if (!(high < divisor)) g_pre_ok = false;
+        bool pre = (c < DSMAX) && (divisor != 0) && (high < divisor);
 #if WBITS == 64
-        if (shift != SizeT32(__builtin_clzll(divisor))) g_pre_ok = false;
+        pre = pre && (shift == SizeT32(__builtin_clzll(divisor | 1U)));
 #endif
-        g_hi[c] = high; g_lo[c] = low;
+        vf_assert(pre, 90);          // the caller must establish the callee's precondition ...
+        vf_assume(pre);              // ... and only then may rely on its postcondition
+        g_hi[c % DSMAX] = high; g_lo[c % DSMAX] = low;
         W q = vf_any<W>();
         W r = vf_any<W>();
         vf_assume(r < divisor);
         vf_assume(high == 0 || q != 0);
-        g_q[c] = q; g_r[c] = r; g_n = c + 1U;
+        g_q[c % DSMAX] = q; g_r[c % DSMAX] = r; g_n = c + 1U;
         high = r; low = q;
     }
     static W Multiply(W &number, W multiplier) noexcept {
         const unsigned c = g_n;
-        DW p;
-        if (c < DSMAX && number == g_ma[c] && multiplier == g_mk[c]) { p = g_mp[c]; g_n = c + 1U; }
-        else { g_pre_ok = false; p = wmul(number, multiplier); }
+        const bool announced = (c < DSMAX) && (number == g_ma[c % DSMAX]) && (multiplier == g_mk[c % DSMAX]);
+        vf_assert(announced, 91);    // the harness announced exactly this operand pair for this call ...
+        vf_assume(announced);        // ... so the product it computed for the pair IS number * multiplier
+        const DW p = g_mp[c % DSMAX];
+        g_n = c + 1U;
         number = (W)p;
         return (W)(p >> WBITS);
     }
@@ -146,6 +149,14 @@ static inline WIDE any_wide() {
     return vf_u64();
 #endif
 }
+static inline DW any_dw() {
+#if WBITS == 64
+    u64 lo = vf_u64(); u64 hi = vf_u64();
+    return ((u128)hi << 64U) | lo;
+#else
+    return vf_any<DW>();
+#endif
+}
 static inline unsigned top_chunk(WIDE x) {   // index of the highest non-zero W-sized chunk of x (0 for 0)
     unsigned t = 0;
     for (unsigned i = 1; i < WIDEBITS / WBITS; i++) if ((W)(x >> (WB * i)) != 0) t = i;
@@ -186,21 +197,6 @@ static inline bool m_sub(M &m, W n, unsigned idx) {
     const V t = (V)n << (WB * idx);
     if (m < t) return false;
     m -= t; return true;
-}
-// m*k spelled by distributivity over the words of m:  sum_i pp[i] * 2^(WB*i)  in V arithmetic, pp[i] = word_i * k exactly (double
-// width).  "fits" = no term and no partial sum reaches 2^TOT (all terms are non-negative, so this is exactly  m*k < 2^TOT).
-static inline bool m_mul(M &m, const DW *pp) {
-    V acc = 0; bool fits = true;
-    for (unsigned i = 0; i < NW; i++) {
-        const V p = (V)pp[i];                                     // < 2^(2*WB) <= 2^VBITS
-        const unsigned room = TOT - WB * i;                       // bits available at this position (>= WB)
-        if (room < 2U * WB && (p >> (room & (VBITS - 1U))) != 0) fits = false;
-        const V t = (V)(p << (WB * i));
-        const V s = acc + t;
-        if (s < acc || !m_fit(s)) fits = false;
-        acc = s;
-    }
-    m = acc; return fits;
 }
 static inline W m_div(M &m, W d) { const W r = (W)(m % (V)d); m = m / (V)d; return r; }
 static inline void m_shr(M &m, unsigned off) { m = (off >= TOT) ? (V)0 : (m >> (off & (VBITS - 1U))); }
@@ -248,14 +244,6 @@ static inline bool m_sub(M &m, W n, unsigned idx) {   // borrow chain
     for (unsigned i = 0; i < NW; i++) if (i >= idx) {
         const W t = m.w[i];
         m.w[i] = (W)(t - c); c = (t < c) ? W(1) : W(0);
-    }
-    return c == 0;
-}
-static inline bool m_mul(M &m, const DW *pp) {    // pp[i] = word_i * k exactly (double width); carry chain
-    W c = 0;
-    for (unsigned i = 0; i < NW; i++) {
-        const DW p = (DW)(pp[i] + (DW)c);         // <= (2^WB-1)^2 + 2^WB-1 < 2^(2*WB)
-        m.w[i] = (W)p; c = (W)(p >> WB);
     }
     return c == 0;
 }
@@ -307,6 +295,19 @@ static inline void m_and_wide(M &m, WIDE x) {
 }
 #endif
 
+// m*k by distributivity over the words of m:  sum_i pp[i] * 2^(WB*i)  with pp[i] = word_i * k exactly (double width), each term
+// added with the reference adder (low half at word i, high half at word i+1).  All terms are non-negative, so "every addition
+// fits" is exactly  m*k < 2^TOT.  The terms are added from the top word down (the sum does not depend on the order; this order
+// lets the solver match intermediate sums with the code under test).
+static inline bool m_mul(M &m, const DW *pp) {
+    M e = m_zero(); bool fits = true;
+    for (unsigned i = NW; i > 0; --i) {
+        fits = m_add(e, (W)pp[i - 1U], i - 1U) && fits;
+        fits = m_add(e, (W)(pp[i - 1U] >> WB), i) && fits;
+    }
+    m = e; return fits;
+}
+
 // =================================================== operations ===================================================
 extern "C" void h_add() {            // Add(number, index)
     B b; any_state(b);
@@ -357,7 +358,16 @@ extern "C" void h_mul() {            // Multiply / *=   (with -DDS_CONTRACT: ove
 #endif
     M m = m_of(b);
     DW pp[NW];                       // the exact word products; words above the index are zero
-    for (unsigned i = 0; i < NW; i++) pp[i] = wmul(b.storage_[i], k);
+#ifdef DS_CONTRACT
+    for (unsigned i = 0; i < NW; i++) {          // what DoubleSize::Multiply(word_i, k) returns: see the stand-in
+        const DW p = any_dw();
+        vf_assume((p == 0) == (b.storage_[i] == 0 || k == 0));
+        vf_assume(p <= (DW)((DW)(W)~W(0) * (DW)(W)~W(0)));
+        pp[i] = p;
+    }
+#else
+    for (unsigned i = 0; i < NW; i++) pp[i] = wmul(b.storage_[i], k);   // the real DoubleSize runs; exact products for the oracle
+#endif
 #ifdef DS_CONTRACT
     const unsigned idx = b.index_;   // call c multiplies word idx - c
     for (unsigned c = 0; c < NW; c++) if (c <= idx) { g_ma[c] = b.storage_[(idx - c) % NW]; g_mk[c] = k; g_mp[c] = pp[(idx - c) % NW]; }
@@ -366,7 +376,7 @@ extern "C" void h_mul() {            // Multiply / *=   (with -DDS_CONTRACT: ove
     vf_assume(m_mul(m, pp));
     b *= k;
 #ifdef DS_CONTRACT
-    vf_assert(g_pre_ok && g_n == idx + 1U, 4);   // one DoubleSize::Multiply per word, top down, each on the ORIGINAL word
+    vf_assert(g_n == idx + 1U, 4);   // one DoubleSize::Multiply per word, top down, each on the ORIGINAL word (assertion 91)
 #endif
     vf_assert(inv(b), 1);
     vf_assert(m_eq(b, m), 2);
@@ -403,8 +413,7 @@ extern "C" void h_div_mod() {        // Divide is schoolbook long division over 
     const W top = m_word(pre, idx);
     g_n = 0;
     const W got = b.Divide(d);
-    vf_assert(g_pre_ok, 1);                       // precondition of every DoubleSize::Divide call
-    vf_assert(g_n == idx, 2);                     // one call per word below the top one
+    vf_assert(g_n == idx, 2);                     // one DoubleSize::Divide per word below the top one (its precondition: assertion 90)
     vf_assert(inv(b), 3);
     unsigned i = vf_u32(); vf_assume(i < NW);     // every result word
     const W e = (i > idx) ? W(0) : ((i == idx) ? W(top / d) : g_q[(idx - 1U - i) % DSMAX]);
